@@ -1144,16 +1144,20 @@ impl StorageEngine {
                 Value::List(list) => {
                     let len = list.len() as isize;
                     
-                    let start = if start < 0 { (len + start).max(0) } else { start } as usize;
-                    let stop = if stop < 0 { (len + stop).max(0) } else { stop } as usize;
+                    // A stop that is still negative after counting from the end selects nothing
+                    let start = if start < 0 { len.saturating_add(start).max(0) } else { start };
+                    let stop = if stop < 0 { len.saturating_add(stop) } else { stop };
                     
                     let mut result = Vec::new();
-                    for (i, item) in list.iter().enumerate() {
-                        if i >= start && i <= stop {
-                            result.push(item.clone());
-                        }
-                        if i > stop {
-                            break;
+                    if stop >= 0 && start <= stop {
+                        let (start, stop) = (start as usize, stop as usize);
+                        for (i, item) in list.iter().enumerate() {
+                            if i >= start && i <= stop {
+                                result.push(item.clone());
+                            }
+                            if i > stop {
+                                break;
+                            }
                         }
                     }
                     result
@@ -1227,13 +1231,17 @@ impl StorageEngine {
                 Value::List(list) => {
                     let len = list.len() as isize;
                     
-                    let start = if start < 0 { (len + start).max(0) } else { start } as usize;
-                    let stop = if stop < 0 { (len + stop).max(0) } else { stop } as usize;
+                    // A stop that is still negative after counting from the end keeps nothing
+                    let start = if start < 0 { len.saturating_add(start).max(0) } else { start };
+                    let stop = if stop < 0 { len.saturating_add(stop) } else { stop };
                     
                     let mut new_list = VecDeque::new();
-                    for (i, item) in list.iter().enumerate() {
-                        if i >= start && i <= stop {
-                            new_list.push_back(item.clone());
+                    if stop >= 0 && start <= stop {
+                        let (start, stop) = (start as usize, stop as usize);
+                        for (i, item) in list.iter().enumerate() {
+                            if i >= start && i <= stop {
+                                new_list.push_back(item.clone());
+                            }
                         }
                     }
                     
